@@ -138,8 +138,67 @@ def oracle(ctx, case, steps, ctor_err):
         ctx.fail(dict(suites.slim(case), s=bad, variant='bad'), f'fragment-less node with an order-1 edge raised {type(err).__name__}, not SyntaxError')
 
 
+def later_level_name_case(ctx, rng):
+    """multi-level description whose base graph gets a virtual node carrying the NAME of a fragment that is defined
+    only at a later level: at the first step it has no fragment, so it must stay inert — the final molecule and all
+    intermediate graphs are those of the description without it"""
+    import re
+    import gen_levels
+    case = gen_levels.hier_case(rng)
+    blocks = re.findall(r"\{[^\}]+\}", case['s'])
+    if len(blocks) < 3:
+        return
+    first_names = set(re.findall(r'(?:\{|,)#([^=,{}\]]+)=', blocks[1]))
+    later = [n for b in blocks[2:] for n in re.findall(r'(?:\{|,)#([^=,{}\]]+)=', b) if n not in first_names]
+    if not later:
+        return
+    name = rng.choice(later)
+    body = blocks[0][1:-1]
+    pos = rng.choice(['first', 'last'])
+    base2 = '{[#%s].%s}' % (name, body) if pos == 'first' else '{%s.[#%s]}' % (body, name)
+    if re.search(r'\|\d+$', body) and pos == 'last':
+        return
+    kw = {'last_all_atom': case.get('all_atom', True)}
+    vcase = {'kind': 'hier-virtual', 's': base2 + '.' + '.'.join(blocks[1:]), 'all_atom': case.get('all_atom', True),
+             'variant': 'later-level-name', 'virtual_name': name}
+    try:
+        with lib.quiet():
+            _, ref = impl.resolver_from_string(case['s'], **kw).resolve_all()
+    except Exception:    # noqa: BLE001
+        ctx.count('hier-virtual', nontrivial=False)
+        return
+    steps = suites.run_resolve_case(ctx, 'hier-virtual', vcase)
+    ctx.feature('virtual:later-level-name')
+    if steps is None:
+        ctx.fail(vcase, 'multi-level description with a virtual node named like a later-level fragment rejected while reading')
+        return
+    if steps[-1]['result'] != 'ok':
+        ctx.fail(vcase, f'multi-level description with a virtual node named like a later-level fragment rejected at level '
+                        f'{steps[-1]["level"]}: {steps[-1]["result"]}')
+        return
+    meta1 = steps[0]['meta_graph']
+    for k in meta1.nodes:
+        if meta1.nodes[k].get('fragname') == name and steps[0]['meta']['nodes'] and \
+                not any(nm_ == name for nm_, _ in steps[0]['frags']):
+            g = meta1.nodes[k].get('graph')
+            if g is not None and len(g):
+                ctx.fail(vcase, f'virtual node {k} ({name}) has no fragment at the first level but is mapped to fine nodes '
+                                f'{sorted(g.nodes)[:6]}')
+                return
+    fine = steps[-1]['fine_graph']
+    match = nm if vcase['all_atom'] else (lambda a, b: a.get('atomname') == b.get('atomname'))
+    if fine.number_of_nodes() != ref.number_of_nodes() or not nx.is_isomorphic(fine, ref, node_match=match, edge_match=em):
+        ctx.fail(vcase, f'the virtual node [#{name}] changes the molecule: {fine.number_of_nodes()} atoms / {fine.number_of_edges()} '
+                        f'bonds, without it {ref.number_of_nodes()} / {ref.number_of_edges()}')
+
+
 def run(ctx):
     rng = ctx.rng('resolve')
+    rng2 = ctx.rng('hier-virtual')
+    for i in range(ctx.budget(60, 1200)):
+        if ctx.out_of_time():
+            break
+        later_level_name_case(ctx, rng2)
     for i in range(ctx.budget(150, 3000)):
         if ctx.out_of_time():
             break
